@@ -11,7 +11,10 @@
 (*   fclass  what the source data says about the file for the switched option:  *)
 (*           "overwrite" (on dists/overwrite), "ignore" (hit by an ignore list  *)
 (*           of one of the two distributions), "manifest" (in a flags manifest  *)
-(*           of one of the two), "configure" (documented configure step),       *)
+(*           of one of the two), "ubuntudir" (a file of dists/ubuntu) and       *)
+(*           "upstreamed" (on the list of files AppArmor 4.1 ships itself): the  *)
+(*           configure step governs them for the pairs of configurations (ca,   *)
+(*           cb) on which Policy!CopiesUbuntuDir / DropsUpstreamed differ,       *)
 (*           "fsp" (installed by the full-policy prepare step), "fspedit"       *)
 (*           (edited by it), "systemd" (drop-in), "" otherwise                  *)
 (* Which facts justify which difference is the property, stated here.           *)
@@ -27,12 +30,16 @@ GovAbi(e) == \/ e.kind = "chg" /\ e.a.t = "abi" /\ e.b.t = "abi"
              \/ e.kind \in {"add", "del"} /\ e.guard
              \/ e.kind = "fileonly" /\ Has(e, "overwrite")
 
+\* the configure step (prepare/configure.go) acts differently on the two configurations
+Configure(e) == \/ Has(e, "ubuntudir") /\ CopiesUbuntuDir(e.ca.dist, e.ca.ver) # CopiesUbuntuDir(e.cb.dist, e.cb.ver)
+                \/ Has(e, "upstreamed") /\ DropsUpstreamed(e.ca.ver) # DropsUpstreamed(e.cb.ver)
+
 GovVer(e) == \/ e.kind \in {"add", "del"} /\ e.guard
-             \/ Has(e, "configure")
+             \/ Configure(e)
 
 GovDist(e) == \/ e.kind \in {"add", "del"} /\ e.guard
               \/ e.kind = "fileonly" /\ Has(e, "ignore")
-              \/ Has(e, "configure")
+              \/ Configure(e)
               \/ e.kind = "chg" /\ Has(e, "manifest") /\ e.a.t \in {"hdr", "decoy"} /\ e.b.t = e.a.t /\ e.a.rest = e.b.rest
 
 GovFull(e) == \/ e.kind = "chg" /\ SameBut(e.a, e.b, "exec") /\ e.a.tgt = e.b.tgt     \* only the transition mode
